@@ -517,8 +517,7 @@ func main() {
 		replay(run)
 		return
 	}
-	debug.SetGCPercent(-1)
-	debug.SetMemoryLimit(3 << 30)
+	debug.SetGCPercent(400)
 	thorough := run.Thorough()
 	start := time.Now()
 	deadline := start.Add(100 * time.Second)
@@ -529,10 +528,8 @@ func main() {
 	bounds := map[string]any{}
 
 	// --- rw: integers
-	wideTags := tagClasses
-	if thorough {
-		wideTags = allTags()
-	}
+	// all 256 tags in both tiers (the tiers differ in the float32 sweep and the cross-width lattice)
+	wideTags := allTags()
 	for _, p := range prims {
 		p := p
 		if !p.kind.IsInteger() {
